@@ -81,8 +81,15 @@ def run(chk, repo):
     chk.ob('C09.a', 'graph built on the annotated ORF with the NF tags of the transcript', repo.loc(m, tvg[0]) if tvg else m.where, ok,
            'ThreeFrameTVG arguments altered', key=MAIN + '::tvg', fn=m.qual)
     gs = [c for c in G.find_calls(m.node, 'gather_sect_variants')]
-    chk.ob('C09.a', 'Sec sites are gathered from the annotation before the frames are initialised', m.where,
-           len(gs) == 1 and gs[0].lineno < G.find_calls(m.node, 'init_three_frames')[0].lineno, 'gather_sect_variants missing / misplaced', key=MAIN + '::sect', fn=m.qual)
+    mcfg0 = CFG(m.node)
+    it3 = G.find_calls(m.node, 'init_three_frames')
+    okg = len(gs) == 1 and len(it3) >= 1
+    if okg:
+        gn = mcfg0.node_for(repo.enclosing_stmt(gs[0]))
+        okg = all(mcfg0.dominates(gn, mcfg0.node_for(repo.enclosing_stmt(c))) for c in it3)
+    chk.ob('C09.a', 'Sec sites are gathered from the annotation on every path before the frames are initialised (whatever flags are given: '
+           'the annotated TGA must be read as U also when only W>F is requested)', m.where, okg,
+           'gather_sect_variants missing / conditional / misplaced: without it translate() reads the annotated Sec codon as a stop', key=MAIN + '::sect', fn=m.qual)
     adds = G.find_calls(f.node, 'add_peptide')
     ok = len(adds) == 1 and unparse(kwarg(adds[0], 'canonical_peptides')) == 'canonical_peptides' and unparse(kwarg(adds[0], 'cleavage_params')) == 'cleavage_params' \
         and kwarg(adds[0], 'skip_checking') is None
@@ -246,3 +253,8 @@ def run(chk, repo):
     from rules.shared import optname
     chk.clauses.append('C09.g (shared R-THREAD) an option value bound to a name that is itself a CLI option carries that very option')
     optname(chk, repo, 'C09.g', ['cli.call_alt_translation'], floor=0)
+    # ------------------------------------------------------------------ Sec positions sorted in transcript order
+    from rules.shared import sorted_before_use
+    chk.rule('C09.h', 'R-ORDER: Sec positions attached to the transcript sequence are sorted in transcript order', 1)
+    chk.clauses.append('C09.h the Sec positions attached to a transcript sequence are sorted after the strand-dependent coordinate conversion')
+    sorted_before_use(chk, repo, 'C09.h', 'gtf.TranscriptAnnotationModel:TranscriptAnnotationModel.get_transcript_sequence', 'DNASeqRecordWithCoordinates', 'selenocysteine', 'the converted Sec positions are in genomic order, which is descending transcript order on the - strand; PVGNode.fix_selenocysteines and the Sec truncation consume them in ascending order (a - strand transcript with two Sec codons is translated wrongly)')
